@@ -74,7 +74,7 @@ CHECKS = {
         tsan(tiers=["thorough"], args={"thorough": {"part": "concurrent", "budget-s": 300}}),
     ]},
     "C16": {"crate": "h_chain", "bin": "c16", "level": "exploration", "legs": [
-        native(),
+        native(args={"all": {"strict-endorsement-list": 1}}),
         tsan(tiers=["thorough"], args={"thorough": {"part": "concurrent", "budget-s": 300}}),
     ]},
     "C20": {"crate": "h_misc", "bin": "c20", "level": "exploration", "legs": [
